@@ -4,10 +4,11 @@ from vf import gen, corecheck as cc, framework as fw, model_pubsub
 RULE = ("sysnotif profile: 2-5 modules subscribing (literal, some catch-all regex) to the five system topics before and during "
         "1-3 loop runs while the other modules are started, paused, resumed, stopped, pilled and deregistered from every place; "
         "optional context tick; both driving modes; tick_rearm profile: the tick is re-configured inside the running loop (1-2 ms -> 40-100 ms, "
-        "optionally off in between) and the run then lasts 20-30 ms of real time. Soundness: per recipient the n-th notification (topic, named module) must be "
+        "optionally off in between) and the run then lasts 20-30 ms of real time; paused_subscriber profile: the subscriber is PAUSED when the loop starts / "
+        "when the last running module stops and is resumed before the run ends. Soundness: per recipient the n-th notification (topic, named module) must be "
         "preceded by >= n observed occurrences of that transition / loop event, carries no payload, loop notifications name nobody, "
         "the internal poison pill is never handed over; tick count <= elapsed/period + 1 per arming. Completeness (clean cases "
-        "only): a module that held a literal normal-priority subscription and stayed RUNNING over the whole loop run received the "
+        "only): a module that held a literal normal-priority subscription and was RUNNING or PAUSED at the occurrence, never left {RUNNING, PAUSED} and was RUNNING when the run ended received the "
         "notification of every confirmed start / stop of another module and of loop start/stop. non-trivial = scenario with a "
         "delivered system notification; distinct = hash of the trace")
 ASSUME = ["a module's notification about its own transition and a started notification for a refused start are tolerated either way",
